@@ -143,6 +143,9 @@ func checkC07(c *Ctx, r *Report) {
 	checkDecoderAssignment(c, r, "decoders-overwrite", 28, nil)
 
 	checkIDStringHeader(c, r)
+	// "all ID-string encodings for every length": the 8-bit decoder is the identity on the
+	// first c bytes (rule shared with C20)
+	checkLatin1Decoders(c, r)
 	checkDCMIVersionGuards(c, r)
 	checkRejectedLayersNotAdded(c, r)
 
